@@ -284,6 +284,25 @@ def run_case(ctx, desc):
             if not np.allclose(r1[ok], exp_r[ok], rtol=0, atol=1e-12):
                 return ctx.violation(f"{cls}.step.refractory_time", "post-step refractory time differs", rdesc)
             ctx.count("model_steps_checked")
+            # the threshold / current "in force" at the next step: documented adaptation law, batch-averaged
+            if adaptive and (st["adapt"] or (st["adapt"] is None and st["train"])) and np.isfinite(v1).all():
+                incr = np.asarray(p["spike_increment"], dtype=np.float64)
+                a0b = np.broadcast_to(a0, full + a0.shape[-1:])
+                if cls in THRESH_ADAPT:
+                    tc = np.asarray(p["tc_adaptation"] if cls == "ALIF" else [1.0 / r for r in p["rc_adaptation"]], dtype=np.float64)
+                    moved = a0b * np.exp(-dt / tc)
+                else:
+                    tc = np.asarray(p["tc_adaptation"], dtype=np.float64)
+                    vc = np.asarray(p["voltage_coupling"], dtype=np.float64)
+                    moved = a0b + dt / tc * (vc * (v1 - p["rest_v"])[..., None] - a0b)
+                frozen = (r1 > 0)[..., None] & st["lock"]
+                exp_a = (np.where(frozen, a0b, moved) + incr * sp[..., None]).mean(0)
+                ctx.count("adaptation_law_checks", int(exp_a.size))
+                # hyper-parameters are stored as float32 buffers (1e-7 relative) before the float64 cast
+                if not np.allclose(a1, exp_a, rtol=1e-5, atol=1e-6 * max(1.0, float(np.abs(exp_a).max()))):
+                    bad = ~np.isclose(a1, exp_a, rtol=1e-5, atol=1e-6 * max(1.0, float(np.abs(exp_a).max())))
+                    return ctx.violation(f"{cls}.step.adaptation_law", "post-step adaptation differs from the documented update", rdesc,
+                                         {"got": a1[bad].tolist()[:5], "expected": exp_a[bad].tolist()[:5]})
         # ---- bookkeeping
         last_spike = np.where(sp, t, last_spike)
 
